@@ -50,6 +50,7 @@ func C10(c *core.Ctx) {
 	emit(c, a.RefCacheScope())
 	emit(c, a.QualifiedResolution())
 	ruleDedup(c)
+	ruleDefsAsWritten(c)
 	// Engine A: the same oracles that decide the inline forms decide the referenced forms ("replacing a reference by an inline copy of its
 	// target does not change which documents are accepted"): value families at the $defs / definitions positions, a definition referenced twice
 	// (one shared type), and the cross-file forms.
